@@ -55,14 +55,18 @@ M2 = S.mr("m", 2)
 p12 = subtotal("p12", [1, 2], anchor="top", sid=1)
 d12 = subtotal("d1_2", [1], [2], anchor="bottom", sid=2)
 d12_3 = subtotal("d12_3", [1, 2], [3], anchor=1, sid=3)
+# differences without a usable positive part: nothing added / only a stale or missing id added
+dneg = subtotal("d_12", [], [1, 2], anchor="top", sid=4)
+dstale = subtotal("d99_1", [99, -1], [1], anchor=2, sid=5)
 
 BASES = {
-    "cat3_x_cat2": (S.schema2("cat3_x_cat2", A3, B2, weighted=True), (1, 2), [{}, {"rows": [p12, d12]}, {"cols": [d12]}], 2, 3),
+    "cat3_x_cat2": (S.schema2("cat3_x_cat2", A3, B2, weighted=True), (1, 2), [{}, {"rows": [p12, d12]}, {"cols": [d12]}, {"rows": [dneg, dstale], "cols": [dneg]}], 2, 3),
     "date3_x_cat2": (S.schema2("date3_x_cat2", D3, B2, weighted=True), (1, 2), [{}, {"rows": [p12, d12]}], 2, 3),
     "cat2_x_date3": (S.schema2("cat2_x_date3", B2, D3), (1,), [{}, {"cols": [p12, d12, d12_3]}], 2, 3),
     "date3_x_date2": (S.schema2("date3_x_date2", D3, E2), (1,), [{}], 2, 3),
     "cat3_x_mr": (S.schema2("cat3_x_mr", A3, M2), (1,), [{}, {"rows": [d12]}], 1, 2),
-    "cat3_1d": (Schema("cat3_1d", [A3], [("cat", 0)], weighted=True), (1, 2), [{}, {"rows": [p12, d12]}], 2, 4),
+    "cat3_1d": (Schema("cat3_1d", [A3], [("cat", 0)], weighted=True), (1, 2),
+                [{}, {"rows": [p12, d12]}, {"rows": [dneg, dstale]}], 2, 4),
     "date3_1d": (Schema("date3_1d", [D3], [("cat", 0)], weighted=True), (1, 2), [{}, {"rows": [p12, d12]}], 2, 4),
     "mr_1d": (Schema("mr_1d", [M2], [("mr", 0)]), (1,), [{}], 2, 3),
 }
